@@ -155,6 +155,26 @@ Section Reduced.
     exact (stream_block_hyps cfg channels bps bs samples total Hbps Hch ltac:(lia) Hlen Hall Hl).
   Qed.
 
+  (* C03 on the decoded side *)
+  Corollary decoded_streaminfo_true cfg rate channels bps bs samples bytes (total : nat) :
+    encode_stream_bytes ent qlpc md5 cfg rate channels bps bs samples = Ok bytes ->
+    cfg_max_parameter cfg <= 14 -> In bps [8; 12; 16; 20; 24] -> 1 <= rate < 2 ^ 20 -> 1 <= channels <= 8 ->
+    16 <= bs <= c_MAX_BLOCK_SIZE ->
+    length samples = (total * N.to_nat channels)%nat -> N.of_nat total < 2 ^ 36 ->
+    length (md5 (md5_input bps samples)) = 16%nat -> Forall lt256 (md5 (md5_input bps samples)) ->
+    stream_lpc_hyps cfg channels bs samples ->
+    exists si decoded,
+      decode_stream bytes = Some (si, decoded) /\ decoded = samples /\
+      i_rate si = rate /\ i_channels si = channels /\ i_bps si = bps /\
+      i_total si * channels = N.of_nat (length decoded) /\ i_md5 si = md5 (md5_input bps decoded).
+  Proof.
+    intros E Hmp Hbps Hrate Hch Hbs Hlen Htot Hml Hm256 Hl.
+    destruct (stream_end_to_end_lpc cfg rate channels bps bs samples bytes total E Hmp Hbps Hrate Hch Hbs Hlen Htot Hml Hm256 Hl)
+      as (minf & maxf & D).
+    eexists. exists samples. split; [exact D|]. cbn [i_rate i_channels i_bps i_total i_md5].
+    repeat split. rewrite Hlen, Nat2N.inj_mul, N2Nat.id. reflexivity.
+  Qed.
+
   (* with the LPC branch switched off there is no hypothesis on any estimator left *)
   Corollary stream_end_to_end_no_lpc cfg rate channels bps bs samples bytes (total : nat) :
     encode_stream_bytes ent qlpc md5 cfg rate channels bps bs samples = Ok bytes ->
